@@ -551,7 +551,10 @@ impl AWorker {
                                 if !d.errors.is_empty() {
                                     f.c("stats_not_compared_undecodable_state", 1);
                                 }
-                                self.obs_stats(&mut m, d, d.errors.is_empty(), &mut f);
+                                // the figures are defined by the chains and the free lists; they can be compared
+                                // as long as those could be walked (an orphan slot does not prevent that)
+                                let comparable = d.errors.iter().all(|e| matches!(e.0, Clause::Partition | Clause::Padding | Clause::Bitmap | Clause::Count));
+                                self.obs_stats(&mut m, d, comparable, &mut f);
                             }
                         }
                         let _ = guard_plain(move || {
